@@ -129,7 +129,7 @@ def cases(spec, ctx):
     for _ in range(sc["NR"] // (6 * n) + 1):
         g = mrng.choice([200, 1000, 5000])
         ova = mrng.random() < 0.6
-        k = mrng.choice([mrng.randint(9, 24), mrng.randint(17, 40), mrng.randint(33, 70), mrng.randint(64, 150)])
+        k = mrng.choice([mrng.randint(9, 24), mrng.randint(17, 40), mrng.randint(33, 70), mrng.randint(64, 150), mrng.randint(129, 300)])
         a = []
         while len(a) < k:
             a = list(G.rand_layout(mrng, g, k, overlap=ova))
